@@ -370,6 +370,9 @@ func init() {
 	reg("errors.Is", func(in *Interp, fr *frame, args []Value) Value {
 		return in.errorsIs(fr, args[0].(Iface), args[1].(Iface))
 	})
+	reg("errors.As", func(in *Interp, fr *frame, args []Value) Value {
+		return in.errorsAs(fr, args[0].(Iface), args[1].(Iface))
+	})
 	reg("errors.Unwrap", func(in *Interp, fr *frame, args []Value) Value {
 		return in.errUnwrap(fr, args[0].(Iface))
 	})
@@ -1131,6 +1134,54 @@ func (in *Interp) errUnwrap(fr *frame, e Iface) Value {
 		}
 	}
 	return Iface{}
+}
+
+// errorsAs: errors.As without reflection (target is *T held in an interface).
+func (in *Interp) errorsAs(fr *frame, err, target Iface) Value {
+	pt, ok := target.T.Underlying().(*types.Pointer)
+	cell, ok2 := target.V.(*Value)
+	if !ok || !ok2 || cell == nil {
+		in.rtPanic("errors: target must be a non-nil pointer")
+	}
+	elem := pt.Elem()
+	var visit func(e Iface, depth int) bool
+	visit = func(e Iface, depth int) bool {
+		if e.T == nil || depth > 16 {
+			return false
+		}
+		if it, isIface := elem.Underlying().(*types.Interface); isIface {
+			if m, _ := types.MissingMethod(e.T, it, true); m == nil {
+				*cell = e
+				return true
+			}
+		} else if types.Identical(e.T, elem) {
+			*cell = copyVal(e.V)
+			return true
+		}
+		ms := in.prog.MethodSets.MethodSet(e.T)
+		for i := 0; i < ms.Len(); i++ {
+			if ms.At(i).Obj().Name() == "Unwrap" {
+				sig := ms.At(i).Type().(*types.Signature)
+				if sig.Results().Len() == 1 {
+					f := in.prog.MethodValue(ms.At(i))
+					r := in.callSSA(fr, 0, f, []Value{e.V}, nil)
+					if sl, isSlice := r.(Slice); isSlice {
+						for _, x := range sl.elems() {
+							if visit(x.(Iface), depth+1) {
+								return true
+							}
+						}
+						return false
+					}
+					if ni, isI := r.(Iface); isI {
+						return visit(ni, depth+1)
+					}
+				}
+			}
+		}
+		return false
+	}
+	return Bool(visit(err, 0))
 }
 
 func (in *Interp) errorsIs(fr *frame, err, target Iface) Value {
